@@ -3,7 +3,7 @@
 # (scratch worktrees, never /repo) and appends "mutant check CAUGHT|missed" lines.
 TIER=$1; OUT=$2; shift 2
 V=$(cd "$(dirname "$0")/.." && pwd)
-MUTS="$@"; [ -z "$MUTS" ] && MUTS=$(ls $V/seeded)
+MUTS="$@"; [ -z "$MUTS" ] && MUTS=$(cd $V/seeded && ls -d C*)
 CHECKS="C01 C02 C03 C04 C05 C06 C07 C08 C09 C10 C11 C12 C13 C14 C15 C16 C17 C18"
 for m in $MUTS; do
   D=/tmp/mt/$m; rm -rf $D; mkdir -p /tmp/mt
